@@ -276,22 +276,20 @@ theorem KInv_work {db : DB} (h : KInv db) (now : Nat) (sel : List (TId × Nat)) 
     · exact KInv_workOne h now k ts
     · exact ih (KInv_workOne h now k ts)
 
-/-- what the caller must respect for the operation to be one of the service's own transactions:
-`Add` gets a fresh job, and the second half of an `Add` runs while the job still does not exist -/
+/-- what must hold for the operation to be one of the service's own transactions: the second half of an `Add` (the writing
+transaction) runs while the job still does not exist. Nothing is asked of the job a caller passes to `Add`: whatever `TId` it
+carries is discarded. -/
 def okOp (db : DB) : Op → Prop
-  | .add j _ => j.fresh = true
-  | .addCommit j _ => j.fresh = true ∧ get j.aid db.jobs = none
+  | .addCommit j _ => get j.aid db.jobs = none
   | _ => True
 
 def Legal : DB → List Op → Prop
   | _, [] => True
   | db, op :: ops => okOp db op ∧ Legal (step db op) ops
 
-theorem fresh_tid {j : Job} (h : j.fresh = true) : j.tid = none := by
-  unfold Job.fresh at h
-  cases hj : j.tid with
-  | none => rfl
-  | some t => simp [hj] at h
+theorem clearTid_fields (j : Job) : (clearTid j).aid = j.aid ∧ (clearTid j).tid = none := by
+  have h : addClearsTid = true := rfl
+  simp [clearTid, h]
 
 theorem BInv_step {db : DB} (h : BInv db) (op : Op) (hok : okOp db op) : BInv (step db op) := by
   cases op with
@@ -301,15 +299,16 @@ theorem BInv_step {db : DB} (h : BInv db) (op : Op) (hok : okOp db op) : BInv (s
     | some v => exact h
     | none =>
       apply BInv_update h
-      obtain ⟨e1, e2⟩ := setFlags_fields j
-      rw [e1, e2, hg]
-      exact fresh_tid hok
+      obtain ⟨e1, e2⟩ := setFlags_fields (clearTid j)
+      obtain ⟨c1, c2⟩ := clearTid_fields j
+      rw [e1, e2, c1, c2, hg]
   | addCommit j ts =>
     simp only [step, addCommit]
     apply BInv_update h
-    obtain ⟨e1, e2⟩ := setFlags_fields j
-    rw [e1, e2, hok.2]
-    exact fresh_tid hok.1
+    obtain ⟨e1, e2⟩ := setFlags_fields (clearTid j)
+    obtain ⟨c1, c2⟩ := clearTid_fields j
+    have hok' : get j.aid db.jobs = none := hok
+    rw [e1, e2, c1, c2, hok']
   | delete aid => exact BInv_delete h aid
   | work now sel => exact BInv_work h now sel
   | reopen => exact h
@@ -439,5 +438,99 @@ theorem run_log {db : DB} {ops : List Op} {f : Fire} (hf : f ∈ (run db ops).lo
     rcases ih hf with h | h
     · exact step_log h
     · right; exact h
+
+/-! ## `Add` touches nothing but its own job -/
+
+/-- an `update` of a job without `TId` leaves the time entries of every other job alone … -/
+theorem update_time_other (db : DB) (j : Job) (ts : Nat) (hj : j.tid = none) {t : TId} (ht : t.aid ≠ j.aid) :
+    get t (update db j ts).time = get t db.time := by
+  have hne : t ≠ ⟨ts, j.aid⟩ := by intro e; rw [e] at ht; exact ht rfl
+  simp only [update, hj]
+  rw [get_put_ne hne]
+
+/-- … and so does it with their entries in the jobs bucket -/
+theorem update_jobs_other (db : DB) (j : Job) (ts : Nat) {a : Nat} (ha : a ≠ j.aid) :
+    get a (update db j ts).jobs = get a db.jobs := by
+  simp only [update]
+  rw [get_put_ne ha]
+
+theorem add_other (db : DB) (j : Job) (ts : Nat) :
+    (∀ t : TId, t.aid ≠ j.aid → get t (add db j ts).1.time = get t db.time) ∧
+    (∀ a : Nat, a ≠ j.aid → get a (add db j ts).1.jobs = get a db.jobs) := by
+  obtain ⟨e1, e2⟩ := setFlags_fields (clearTid j)
+  obtain ⟨c1, c2⟩ := clearTid_fields j
+  unfold add
+  cases get j.aid db.jobs with
+  | some v => exact ⟨fun _ _ => rfl, fun _ _ => rfl⟩
+  | none =>
+    constructor
+    · intro t ht
+      exact update_time_other db _ ts (e2.trans c2) (by rw [e1, c1]; exact ht)
+    · intro a ha
+      exact update_jobs_other db _ ts (by rw [e1, c1]; exact ha)
+
+/-! ## recurring jobs: occurrences and jitter -/
+
+theorem isDue_lt {k : TId} {now : Nat} (h : isDue k now = true) : k.ts < now := by
+  unfold isDue dueCmp cmpKey at h
+  by_cases hlt : k.ts < now
+  · exact hlt
+  · simp [hlt] at h
+
+theorem nextOcc_gt {p now : Nat} (hp : p ≠ 0) : now < nextOcc p now := by
+  unfold nextOcc
+  have hp' : 0 < p := Nat.pos_of_ne_zero hp
+  have h1 := Nat.div_add_mod now p
+  have h2 := Nat.mod_lt now hp'
+  rw [Nat.add_mul, Nat.one_mul, Nat.mul_comm]
+  omega
+
+/-- the jitter is never negative: the key is at or after the occurrence it was computed from -/
+theorem occ_le_setCron (p max now u : Nat) : nextOcc p now ≤ setCron p max now u := by
+  have h : jitterSub max = 0 := rfl
+  unfold setCron; rw [h]; omega
+
+/-- invariant of one recurring job's life: its key is not before its occurrence, every run so far served an earlier
+occurrence, strictly after that occurrence, and the occurrences served are strictly increasing -/
+structure RInv (p : Nat) (s : RState) : Prop where
+  keyOk : s.occ ≤ s.key
+  isOcc : s.occ % p = 0
+  served : ∀ r ∈ s.runs, r.1 < s.occ ∧ r.1 < r.2 ∧ r.1 % p = 0
+  incr : (s.runs.map (·.1)).Pairwise (· > ·)
+
+theorem nextOcc_mod (p now : Nat) : nextOcc p now % p = 0 := by
+  unfold nextOcc; exact Nat.mul_mod_left _ _
+
+theorem RInv_init (p max now u : Nat) : RInv p (rinit p max now u) :=
+  ⟨occ_le_setCron p max now u, nextOcc_mod p now, (by intro r hr; exact absurd hr (by simp [rinit])), (by simp [rinit])⟩
+
+theorem RInv_step {p max : Nat} (hp : p ≠ 0) {s : RState} (h : RInv p s) (op : ROp) : RInv p (rstep p max s op) := by
+  cases op with
+  | advance d => exact ⟨h.keyOk, h.isOcc, h.served, h.incr⟩
+  | poll d u =>
+    simp only [rstep]
+    split
+    · rename_i hdue
+      have hlt : s.key < s.clock := isDue_lt hdue
+      have hocc : s.occ < nextOcc p (s.clock + d) := by
+        have := nextOcc_gt (now := s.clock + d) hp
+        have := h.keyOk
+        omega
+      refine ⟨occ_le_setCron _ _ _ _, nextOcc_mod _ _, ?_, ?_⟩
+      · intro r hr
+        rcases mem_cons.1 hr with e | hr
+        · rw [e]; exact ⟨hocc, Nat.lt_of_le_of_lt h.keyOk hlt, h.isOcc⟩
+        · exact ⟨Nat.lt_trans (h.served r hr).1 hocc, (h.served r hr).2⟩
+      · rw [map_cons, pairwise_cons]
+        refine ⟨?_, h.incr⟩
+        intro o ho
+        obtain ⟨r, hr, e⟩ := mem_map.1 ho
+        rw [← e]; exact (h.served r hr).1
+    · exact h
+
+theorem RInv_run {p max : Nat} (hp : p ≠ 0) {s : RState} (h : RInv p s) (ops : List ROp) : RInv p (rrun p max s ops) := by
+  induction ops generalizing s with
+  | nil => exact h
+  | cons op ops ih => exact ih (RInv_step hp h op)
 
 end Crolt
